@@ -12,6 +12,7 @@ Cited, not proved: that the KOV expression is a valid (ε, δ) composition bound
 import DPL.Model.Accountant
 import DPL.Proofs.RealCarrier
 import DPL.Proofs.AccountantTotal
+import DPL.Proofs.AccountantCompose
 import Mathlib.Analysis.Complex.Trigonometric
 
 namespace DPL.C05
@@ -215,5 +216,79 @@ example : (totalCore [⟨1, 0⟩, ⟨2, 1 / 2⟩] (1 / 10 : ℝ)).delta = 11 / 2
 /-- a genuine permutation -/
 example : totalCore [⟨1, 0⟩, ⟨2, 1 / 2⟩] (1 / 10 : ℝ) = totalCore [⟨2, 1 / 2⟩, ⟨1, 0⟩] (1 / 10 : ℝ) :=
   total_perm _ _ (List.Perm.swap _ _ _) _
+
+/-! ### composition validity — a THEOREM in the pure-DP / slack-0 regime
+
+The header cites "the KOV expression is a valid (ε, δ) composition bound".  With slack 0 and every recorded δᵢ = 0
+the total is (Σ εᵢ, 0) (`total_basic`), and that Σ εᵢ bounds every ADAPTIVE composition of stages that are εᵢ-DP
+respectively is `Compose.adaptive_composition_list` (`DPL/Proofs/ModelsCompose.lean`; stage `i` is a pair of kernels
+`(κᵢ, κᵢ′)` on a state space `Y` — take `Y` = the history of outputs for full adaptivity —, `Compose.iter` pushes a start
+law through the stages).  The general statement (δᵢ > 0, slack > 0) stays cited: `accountant_total_sound_full`. -/
+
+section Soundness
+open MeasureTheory ProbabilityTheory
+
+/-- **the accountant's total is a valid composition bound (pure DP, slack 0)**: if the recorded spends are
+`(εᵢ, 0)` and stage `i` of an adaptive composition is `εᵢ`-DP (`κᵢ y S ≤ e^{εᵢ} κᵢ′ y S`, every state `y`, every
+measurable `S`), then the composed laws from a common start law are within `e^{total.eps}`, and `total.delta = 0` -/
+theorem accountant_total_sound_pure {Y : Type*} [MeasurableSpace Y] (stages : List (ℝ × Kernel Y Y × Kernel Y Y))
+    (hst : ∀ t ∈ stages, ∀ y S, MeasurableSet S → t.2.1 y S ≤ ENNReal.ofReal (Real.exp t.1) * t.2.2 y S)
+    (l : List (Spend ℝ)) (hrec : l.map (fun s => s.eps) = stages.map Prod.fst) (hδ : ∀ s ∈ l, s.delta = 0)
+    (μ : Measure Y) (S : Set Y) (hS : MeasurableSet S) :
+    (totalCore l 0).eps = sumEps l ∧ (totalCore l 0).delta = 0 ∧
+    Compose.iter (fun t => t.2.1) μ stages S ≤
+      ENNReal.ofReal (Real.exp (totalCore l 0).eps) * Compose.iter (fun t => t.2.2) μ stages S :=
+  ⟨(total_basic l).1, (AccCompose.total_sound_pure stages hst l hrec hδ μ S hS).1,
+    (AccCompose.total_sound_pure stages hst l hrec hδ μ S hS).2⟩
+
+/-- … for what `total()` returns on an accountant with slack 0 after ANY operation sequence: the recorded history
+is the initial spends followed by the accepted ones (`run_spent_eq`) -/
+theorem accountant_run_sound_pure {Y : Type*} [MeasurableSpace Y] (a : Acc ℝ) (ops : List (AOp ℝ))
+    (h0 : (a.run ops).slack = 0) (hδ : ∀ s ∈ a.spent ++ acceptedSpends a ops, s.delta = 0)
+    (t : Tot ℝ) (ht : (a.run ops).total = .ok t) (stages : List (ℝ × Kernel Y Y × Kernel Y Y))
+    (hst : ∀ u ∈ stages, ∀ y S, MeasurableSet S → u.2.1 y S ≤ ENNReal.ofReal (Real.exp u.1) * u.2.2 y S)
+    (hrec : (a.spent ++ acceptedSpends a ops).map (fun s => s.eps) = stages.map Prod.fst)
+    (μ : Measure Y) (S : Set Y) (hS : MeasurableSet S) :
+    t.eps = sumEps (a.spent ++ acceptedSpends a ops) ∧ t.delta = 0 ∧
+    Compose.iter (fun u => u.2.1) μ stages S ≤
+      ENNReal.ofReal (Real.exp t.eps) * Compose.iter (fun u => u.2.2) μ stages S := by
+  rw [← run_spent_eq] at hδ hrec ⊢
+  exact AccCompose.acc_total_sound_pure (a.run ops) h0 hδ t ht stages hst hrec μ S hS
+
+/-- non-vacuity: two recorded spends (1, 0), (2, 0); two stages that are 1-DP and 2-DP (identical kernels are);
+the hypotheses hold and the reported epsilon is 3 -/
+example (κ : Kernel ℝ ℝ) :
+    (∀ t ∈ [((1 : ℝ), κ, κ), (2, κ, κ)], ∀ y S, MeasurableSet S →
+      t.2.1 y S ≤ ENNReal.ofReal (Real.exp t.1) * t.2.2 y S) ∧
+    ([⟨1, 0⟩, ⟨2, 0⟩] : List (Spend ℝ)).map (fun s => s.eps) = [((1 : ℝ), κ, κ), (2, κ, κ)].map Prod.fst ∧
+    (∀ s ∈ ([⟨1, 0⟩, ⟨2, 0⟩] : List (Spend ℝ)), s.delta = 0) ∧ (totalCore [⟨1, 0⟩, ⟨2, 0⟩] (0 : ℝ)).eps = 3 := by
+  refine ⟨?_, by simp, by simp, ?_⟩
+  · intro t ht y S _
+    simp only [List.mem_cons, List.not_mem_nil, or_false] at ht
+    have h1 : ∀ e : ℝ, 0 ≤ e → (1 : ENNReal) ≤ ENNReal.ofReal (Real.exp e) := fun e he => by
+      rw [← ENNReal.ofReal_one]; exact ENNReal.ofReal_le_ofReal (Real.one_le_exp he)
+    rcases ht with rfl | rfl
+    · exact le_mul_of_one_le_left' (h1 1 (by norm_num))
+    · exact le_mul_of_one_le_left' (h1 2 (by norm_num))
+  · rw [(total_basic _).1]; norm_num [sumEps]
+
+/-- the GENERAL statement (recorded δᵢ > 0, slack δ̃ > 0) — CITED, not proved: Kairouz, Oh, Viswanath 2017, Thm 3.5
+(heterogeneous adaptive composition): stages that are (εᵢ, δᵢ)-DP in both directions compose to
+(`total.eps`, `total.delta`)-DP, where `total` is `kov` / `kovDelta` (`total_eps_eq`, `total_delta_eq`); at slack 0
+it is basic composition (Σ εᵢ, 1 − Π(1 − δᵢ)).  `accountant_total_sound_pure` is the instance δᵢ = 0, slack = 0. -/
+def accountant_total_sound_full : Prop :=
+  ∀ (Y : Type) [MeasurableSpace Y] (stages : List (Spend ℝ × Kernel Y Y × Kernel Y Y)) (slack : ℝ),
+    0 ≤ slack → slack ≤ 1 →
+    (∀ t ∈ stages, 0 ≤ t.1.eps ∧ 0 ≤ t.1.delta ∧ t.1.delta ≤ 1 ∧ IsMarkovKernel t.2.1 ∧ IsMarkovKernel t.2.2 ∧
+      ∀ y S, MeasurableSet S →
+        t.2.1 y S ≤ ENNReal.ofReal (Real.exp t.1.eps) * t.2.2 y S + ENNReal.ofReal t.1.delta ∧
+        t.2.2 y S ≤ ENNReal.ofReal (Real.exp t.1.eps) * t.2.1 y S + ENNReal.ofReal t.1.delta) →
+    ∀ (μ : Measure Y) [IsProbabilityMeasure μ] (S : Set Y), MeasurableSet S →
+      Compose.iter (fun t => t.2.1) μ (stages.map fun t => (t.1.eps, t.2.1, t.2.2)) S ≤
+        ENNReal.ofReal (Real.exp (totalCore (stages.map Prod.fst) slack).eps) *
+          Compose.iter (fun t => t.2.2) μ (stages.map fun t => (t.1.eps, t.2.1, t.2.2)) S +
+        ENNReal.ofReal (totalCore (stages.map Prod.fst) slack).delta
+
+end Soundness
 
 end DPL.C05
